@@ -380,6 +380,12 @@ def r8(rep, prog):
         return
     KILL = {SU + "SegmentUpdater::kill", SU + "InnerSegmentUpdater::kill"} | set(prog.names(r"segment_updater::(Inner)?SegmentUpdater::kill$"))
     kills = [Ev(x, "term") for x, _ in calls_to(prog, b, KILL)]
+    # a direct store into the `killed` flag counts as well
+    for bi_, t_ in b.calls():
+        if (t_.get("f") or "").endswith("::store") and t_.get("args"):
+            trk = trace_back(b, op_local(t_["args"][0])) if op_local(t_["args"][0]) is not None else []
+            if any(s_[0] == "field" and s_[2] == "killed" for s_ in trk):
+                kills.append(Ev(bi_, "term"))
     eb = b.error_blocks()
     after = b.reachable(tuple(b.succ(sw[0][0])))
     bad = []
